@@ -55,6 +55,8 @@ fn name_elided_lifetimes(
         rename: bool,
         /// the lifetimes that are written out (`'a`, `'static`), one entry per position
         written: Vec<syn::Lifetime>,
+        /// the lifetime parameters of the fn (a lifetime bound by a `for<'b>` is none of the inputs' lifetimes)
+        params: Vec<syn::Ident>,
     }
 
     impl VisitMut for Namer {
@@ -74,7 +76,7 @@ fn name_elided_lifetimes(
                     *lifetime = self.lifetime.clone();
                 }
                 self.found += 1;
-            } else {
+            } else if lifetime.ident == "static" || self.params.contains(&lifetime.ident) {
                 self.written.push(lifetime.clone());
             }
         }
@@ -95,6 +97,11 @@ fn name_elided_lifetimes(
         found: 0,
         rename: false,
         written: vec![],
+        params: sig
+            .generics
+            .lifetimes()
+            .map(|param| param.lifetime.ident.clone())
+            .collect(),
     };
     let mut declared = declared;
 
